@@ -49,6 +49,10 @@ def outcome(lexer, parser, text):
         return ("foreign:" + type(e).__name__, None)
     if not isinstance(r, ast._Node):
         return ("non-node:" + type(r).__name__, None)
+    from .decode import malformed
+    bad = malformed(r)
+    if bad:
+        return ("non-node:malformed AST (" + bad + ")", None)
     return ("node", beta(r))
 
 
